@@ -69,4 +69,16 @@ def d14Ops (ts : List Ty) : List String :=
   (if ms.any Ty.hasUnhashable then ["unhashable"] else []) ++
   (if ms.any Ty.hasUnion then ["unionOrder"] else [])
 
+/-- `substCollapse`: substituting into the union of the operands makes two of its members `==`
+(`T | int` with `T := int`) or removes one (`T := Never`, leaving a one-member union):
+`MultiValuedValue.substitute_typevars` only re-flattens, uniting the
+substituted operands merges them, so substitution does not commute with uniting up to `==`. -/
+def nonNormalUnion : Ty → Bool
+  | .union [_] => true
+  | t => hasDupMembers t
+
+def d14Subst (m : TvMap) (a b : Ty) : List String :=
+  (if nonNormalUnion (subst m (unite [a, b])) || nonNormalUnion (subst m a) || nonNormalUnion (subst m b)
+   then ["substCollapse"] else []) ++ d14Ops [a, b, subst m a, subst m b]
+
 end Pya
